@@ -54,6 +54,8 @@ pub struct BcastScenario {
     pub subs: Vec<Sub>,
     /// the sender waits for quiescence between sends
     pub paced: bool,
+    /// every sender is dropped before the stalled subscribers start to drain
+    pub drop_first: bool,
 }
 
 #[derive(Default)]
@@ -195,7 +197,12 @@ impl Scenario for BcastScenario {
             }
             env.quiesce().await;
             o2.lock().unwrap().burst_done = true;
-            // release stalled subscribers, then end the channel
+            // release stalled subscribers, then end the channel (or the other way round)
+            let mut tx = Some(tx);
+            if p.drop_first {
+                drop(tx.take());
+                env.quiesce().await;
+            }
             gate.notify_waiters();
             env.quiesce().await;
             drop(tx);
@@ -270,6 +277,17 @@ impl Scenario for BcastScenario {
                             prev = Some(x);
                         }
                     }
+                    // values skipped at the very end need their marker too: "closed" right after a value that is not the last one sent
+                    if !matches!(s.pattern, Pattern::LeaveAfter(_)) && ev.last().map(|e| e.as_str()) == Some("closed") {
+                        let last_val = prev.unwrap_or(first_possible - 1);
+                        let lag_before_closed = ev.len() >= 2 && ev[ev.len() - 2] == "lag";
+                        if last_val < p.n && !lag_before_closed {
+                            v.fail("C16", "gap-at-end-without-lag-marker", format!("subscriber {id} ({s:?}) last got {last_val} of {} values and then Closed with no lag error in between: {ev:?}", p.n));
+                        }
+                        if last_val >= p.n && lag_before_closed {
+                            v.fail("C16", "lag-marker-without-gap", format!("subscriber {id} ({s:?}): {ev:?}"));
+                        }
+                    }
                     // a subscriber that keeps up (paced sender) receives everything after its subscription
                     if s.pattern == Pattern::KeepUp && p.paced {
                         let vals: Vec<u32> = ev.iter().filter_map(|e| e.strip_prefix('v').and_then(|x| x.parse().ok())).collect();
@@ -304,10 +322,13 @@ pub fn grid(tier: Tier) -> Vec<Arc<dyn Scenario>> {
                             for paced in [true, false] {
                                 let slow = Sub { remote, send_buffer: sb, recv_buffer: rb, pattern: pat, join_after };
                                 let fast = Sub { remote: !remote, send_buffer: 2, recv_buffer: 2, pattern: Pattern::KeepUp, join_after: 0 };
-                                out.push(Arc::new(BcastScenario { n, subs: vec![fast.clone(), slow.clone()], paced }));
+                                out.push(Arc::new(BcastScenario { n, subs: vec![fast.clone(), slow.clone()], paced, drop_first: false }));
+                                if !matches!(pat, Pattern::KeepUp | Pattern::LeaveAfter(_)) {
+                                    out.push(Arc::new(BcastScenario { n, subs: vec![fast.clone(), slow.clone()], paced, drop_first: true }));
+                                }
                                 if tier == Tier::Thorough {
                                     let third = Sub { remote, send_buffer: 1, recv_buffer: 1, pattern: Pattern::StallAfter(2), join_after: 1 };
-                                    out.push(Arc::new(BcastScenario { n, subs: vec![fast, slow, third], paced }));
+                                    out.push(Arc::new(BcastScenario { n, subs: vec![fast, slow, third], paced, drop_first: false }));
                                 }
                             }
                         }
@@ -322,9 +343,9 @@ pub fn grid(tier: Tier) -> Vec<Arc<dyn Scenario>> {
 pub fn core(_tier: Tier) -> Vec<Arc<dyn Scenario>> {
     let fast = Sub { remote: true, send_buffer: 2, recv_buffer: 2, pattern: Pattern::KeepUp, join_after: 0 };
     vec![
-        Arc::new(BcastScenario { n: 3, subs: vec![fast.clone(), Sub { remote: false, send_buffer: 1, recv_buffer: 1, pattern: Pattern::StallAfter(1), join_after: 0 }], paced: false }),
-        Arc::new(BcastScenario { n: 3, subs: vec![fast.clone(), Sub { remote: true, send_buffer: 1, recv_buffer: 1, pattern: Pattern::StallAfter(0), join_after: 1 }], paced: true }),
-        Arc::new(BcastScenario { n: 4, subs: vec![fast, Sub { remote: false, send_buffer: 2, recv_buffer: 1, pattern: Pattern::Never, join_after: 0 }], paced: true }),
+        Arc::new(BcastScenario { n: 3, subs: vec![fast.clone(), Sub { remote: false, send_buffer: 1, recv_buffer: 1, pattern: Pattern::StallAfter(1), join_after: 0 }], paced: false, drop_first: false }),
+        Arc::new(BcastScenario { n: 3, subs: vec![fast.clone(), Sub { remote: true, send_buffer: 1, recv_buffer: 1, pattern: Pattern::StallAfter(0), join_after: 1 }], paced: true, drop_first: false }),
+        Arc::new(BcastScenario { n: 4, subs: vec![fast, Sub { remote: false, send_buffer: 2, recv_buffer: 1, pattern: Pattern::Never, join_after: 0 }], paced: true, drop_first: true }),
     ]
 }
 
